@@ -1,4 +1,210 @@
 package main
 
-// thorough tier: placeholder, filled in later (checker self-test on seeded scratch copies).
-func thorough(w *World, prop, repo, verif string) int { return 0 }
+// thorough tier = quick, plus
+//  1. checker self-test: every recorded mutant of this property (/verif/mutants/<prop>/*.patch and
+//     the seeded changes under /verif/seeded/*/ whose meta.json lists this property under
+//     "detected_by") is applied to a scratch copy of the CURRENT /repo outside /repo and /verif,
+//     must still type-check, and the property's rules must report a violation there.  A mutant that
+//     no longer applies is skipped and counted; one that applies and is not reported is a checker
+//     failure (exit 2), never a VIOLATION of twig.
+//  2. the same rules with GOARCH=386 and with -tags verif (different int width, build-tagged files).
+//  3. cross-references that never decide: go vet on the package (printed, counted).
+
+import (
+	"encoding/json"
+	"fmt"
+	"os"
+	"os/exec"
+	"path/filepath"
+	"sort"
+	"strings"
+	"sync"
+)
+
+type seedMeta struct {
+	Property   string   `json:"property"`
+	DetectedBy []string `json:"detected_by"`
+}
+
+type mutantResult struct {
+	name     string
+	status   string // detected | missed | skipped | broken
+	detail   string
+}
+
+func thorough(w *World, prop, repo, verif string) int {
+	status := 0
+	// ---- 1. self-test
+	var patches []string
+	ms, _ := filepath.Glob(filepath.Join(verif, "mutants", prop, "*.patch"))
+	patches = append(patches, ms...)
+	seeds, _ := filepath.Glob(filepath.Join(verif, "seeded", "*", "meta.json"))
+	for _, mf := range seeds {
+		b, err := os.ReadFile(mf)
+		if err != nil {
+			continue
+		}
+		var m seedMeta
+		if json.Unmarshal(b, &m) != nil {
+			continue
+		}
+		for _, d := range m.DetectedBy {
+			if d == prop {
+				patches = append(patches, filepath.Join(filepath.Dir(mf), "patch.diff"))
+			}
+		}
+	}
+	sort.Strings(patches)
+	results := make([]mutantResult, len(patches))
+	sem := make(chan struct{}, 6)
+	var wg sync.WaitGroup
+	self, _ := os.Executable()
+	for i, p := range patches {
+		wg.Add(1)
+		go func(i int, p string) {
+			defer wg.Done()
+			sem <- struct{}{}
+			defer func() { <-sem }()
+			results[i] = runMutant(self, prop, repo, verif, p)
+		}(i, p)
+	}
+	wg.Wait()
+	nDet, nSkip := 0, 0
+	for _, res := range results {
+		switch res.status {
+		case "detected":
+			nDet++
+		case "skipped":
+			nSkip++
+			fmt.Printf("self-test: %s skipped (%s)\n", res.name, res.detail)
+		default:
+			fmt.Fprintf(os.Stderr, "CHECKER-SELF-TEST-FAILED property=%s mutant=%s: %s %s\n", prop, res.name, res.status, res.detail)
+			status = 2
+		}
+	}
+	fmt.Printf("%s thorough: self-test %d mutants, %d detected, %d skipped\n", prop, len(patches), nDet, nSkip)
+
+	// ---- 2. other build configurations
+	for _, cfg := range [][2]string{{"", "386"}, {"verif", ""}} {
+		st := runVariant(self, prop, repo, verif, cfg[0], cfg[1])
+		label := "GOARCH=" + cfg[1]
+		if cfg[0] != "" {
+			label = "-tags " + cfg[0]
+		}
+		fmt.Printf("%s thorough: rules under %s: exit %d\n", prop, label, st)
+		if st > status {
+			status = st
+		}
+	}
+
+	// ---- 3. cross-reference (never decides)
+	cmd := exec.Command("go", "vet", ".")
+	cmd.Dir = repo
+	cmd.Env = append(os.Environ(), "GOFLAGS=-mod=mod", "GOPROXY=off", "GOWORK=off")
+	out, _ := cmd.CombinedOutput()
+	n := 0
+	for _, l := range strings.Split(string(out), "\n") {
+		if strings.Contains(l, ".go:") {
+			n++
+		}
+	}
+	fmt.Printf("%s thorough: cross-reference go vet: %d diagnostics (informational)\n", prop, n)
+
+	// append the self-test summary to the evidence file
+	evPath := filepath.Join(verif, "evidence", prop+".json")
+	if b, err := os.ReadFile(evPath); err == nil {
+		var ev map[string]interface{}
+		if json.Unmarshal(b, &ev) == nil {
+			cov, _ := ev["coverage"].(map[string]interface{})
+			if cov != nil {
+				var names []string
+				for _, res := range results {
+					names = append(names, res.name+": "+res.status)
+				}
+				cov["selftest"] = map[string]interface{}{"mutants": len(patches), "detected": nDet, "skipped": nSkip, "results": names}
+				cov["variants"] = []string{"GOARCH=386", "-tags verif"}
+				nb, _ := json.MarshalIndent(ev, "", " ")
+				os.WriteFile(evPath, append(nb, '\n'), 0o644)
+			}
+		}
+	}
+	return status
+}
+
+func scratchCopy(repo string) (string, error) {
+	d, err := os.MkdirTemp("", "twigcheck-")
+	if err != nil {
+		return "", err
+	}
+	cmd := exec.Command("rsync", "-a", "--exclude", ".git", repo+"/", d+"/")
+	if out, err := cmd.CombinedOutput(); err != nil {
+		os.RemoveAll(d)
+		return "", fmt.Errorf("rsync: %v %s", err, out)
+	}
+	return d, nil
+}
+
+func runMutant(self, prop, repo, verif, patch string) mutantResult {
+	name := filepath.Base(filepath.Dir(patch)) + "/" + filepath.Base(patch)
+	d, err := scratchCopy(repo)
+	if err != nil {
+		return mutantResult{name, "broken", err.Error()}
+	}
+	defer os.RemoveAll(d)
+	cmd := exec.Command("patch", "-p1", "-s", "--no-backup-if-mismatch", "-i", patch)
+	cmd.Dir = d
+	if out, err := cmd.CombinedOutput(); err != nil {
+		return mutantResult{name, "skipped", "patch does not apply to the current tree: " + firstLine(string(out))}
+	}
+	cmd = exec.Command(self, "-prop", prop, "-tier", "quick", "-repo", d, "-verif", verif, "-no-evidence")
+	cmd.Env = append(os.Environ(), "GOCACHE="+filepath.Join(d, ".gocache"))
+	out, err := cmd.CombinedOutput()
+	code := 0
+	if ee, ok := err.(*exec.ExitError); ok {
+		code = ee.ExitCode()
+	} else if err != nil {
+		return mutantResult{name, "broken", err.Error()}
+	}
+	switch code {
+	case 1:
+		if strings.Contains(string(out), "VIOLATION property="+prop) {
+			return mutantResult{name, "detected", ""}
+		}
+		return mutantResult{name, "missed", "exit 1 without VIOLATION line"}
+	case 0:
+		return mutantResult{name, "missed", "the rules reported nothing on the mutated tree"}
+	default:
+		if strings.Contains(string(out), "load/type errors") || strings.Contains(string(out), "load error") {
+			return mutantResult{name, "skipped", "mutant does not type-check on the current tree"}
+		}
+		return mutantResult{name, "broken", "checker exit " + fmt.Sprint(code) + ": " + firstLine(string(out))}
+	}
+}
+
+func runVariant(self, prop, repo, verif, tags, goarch string) int {
+	args := []string{"-prop", prop, "-tier", "quick", "-repo", repo, "-verif", verif, "-no-evidence"}
+	if tags != "" {
+		args = append(args, "-tags", tags)
+	}
+	if goarch != "" {
+		args = append(args, "-goarch", goarch)
+	}
+	cmd := exec.Command(self, args...)
+	out, err := cmd.CombinedOutput()
+	if ee, ok := err.(*exec.ExitError); ok {
+		fmt.Print(string(out))
+		return ee.ExitCode()
+	} else if err != nil {
+		fmt.Println(err)
+		return 2
+	}
+	return 0
+}
+
+func firstLine(s string) string {
+	s = strings.TrimSpace(s)
+	if i := strings.Index(s, "\n"); i >= 0 {
+		return s[:i]
+	}
+	return s
+}
